@@ -7,6 +7,9 @@ ids = [p["id"] for p in props]
 
 # id -> (category, technique, text, note, design_ref)
 claimed = {
+ "C12": ("model_checking", "exhaustive peer-script enumeration (nd explorer) with real library instances on both ends of a scripted in-memory connection",
+         "Emitted headers for every (own address incl. quotes/&/<>, domain, language, c2s/s2s, TCP/WebSocket) are checked for well-formedness and parsed by a receiving library instance, whose answer is parsed by another initiating instance (same to/from/id/version/lang/xmlns); every incoming start element over names x prefix binding x xmlns x versions x id x address shapes on both roles and framings is accepted only under the stated conditions; every sequence of <=3 headers across restarts with same/different/absent addresses; resource binding: 4 addresses x 14 scripted server replies, 4 callbacks x 3 requested resources x 1-2 sessions sharing a feature value.",
+         "Trusted: encoding/xml; the peer is a reactive script (no goroutine). A receiving s2s session built through the public constructors refuses every first header naming a peer, so the s2s header is only checked for well-formedness and for what the receiver recovers.", "6/C12"),
  "C07": ("model_checking", "exhaustive (incoming stanza x handler program x wiring) product through the real Session.Serve (nd explorer), wire output counted against a reference",
          "Full product of 3 stanza kinds x 7 types x id x 4 from x 2 to x 5 payload shapes x 2 namespaces x 15 handler programs x payload consumption x {bare handler, mux with handler, mux without} x {first stanza, after an earlier request} (504k executions): the bytes written during Serve are parsed and the top-level result/error IQs carrying the request id are counted against what the handler program wrote; exactly one reply (handler's or the automatic service-unavailable addressed to the sender) or a terminated stream.",
          "Trusted: encoding/xml for parsing the wire. Stream termination is judged by Serve's result because the session does not flush its stream errors (pinned by the repository's tests). Pending-request interference (an incoming request whose id equals an outstanding SendIQ) is a schedule question and belongs to C06.", "6/C07"),
